@@ -27,7 +27,7 @@ def histories(rng, tier):
         h = [c.line(), 'upd x op=replace pix=%s vals=%s' % (','.join(map(str, pix)), ','.join(vals))]
         y = gen.MapCfg('y', c.kind, c.covord, c.spord, dtype=c.dtype, sentinel=c.sentinel, maxbits=c.maxbits,
                        fields=c.fields, primary=c.primary)
-        routes = ['shuffled', 'prealloc', 'copy']
+        routes = ['shuffled', 'prealloc', 'copy', 'emptyblock', 'emptyblock']
         if c.is_int or c.is_flt:
             routes += ['sop_identity', 'astype_rt', 'union_empty']
         if c.is_bool:
@@ -50,6 +50,22 @@ def histories(rng, tier):
             y.covpix = need
             h.append(y.line())
             h.append('upd y op=replace pix=%s vals=%s' % (','.join(map(str, pix)), ','.join(vals)))
+        elif route == 'emptyblock':
+            # same update calls in the same order, but an extra allocated-and-empty coverage pixel (pre-allocated,
+            # or filled and then cleared) so that storage layouts differ while listing orders agree
+            used = set(p // c.nfine for p in pix)
+            free = [k for k in range(c.ncov) if k not in used]
+            if free and rng.random() < 0.5:
+                y.covpix = [rng.choice(free)]
+                h.append(y.line())
+            elif free:
+                h.append(y.line())
+                k = rng.choice(free)
+                h.append('upd y op=replace pix=%d val=%s' % (k * c.nfine, c.val(rng)))
+                h.append('upd y op=replace none=1 pix=%d' % (k * c.nfine))
+            else:
+                h.append(y.line())
+            h.append('upd y op=replace pix=%s vals=%s' % (','.join(map(str, pix)), ','.join(vals)))
         elif route == 'copy':
             h.append('copy x r=y')
         elif route == 'sop_identity':
@@ -67,8 +83,13 @@ def histories(rng, tier):
         elif route == 'degsame':
             h += ['deg x r=y ord=%d red=mean' % c.spord]
         h += ['info x', 'info y', 'vals x', 'vals y', 'covmask x', 'covmask y']
+        wc = gen.MapCfg('wc', 'plain', c.covord, c.spord, dtype='f8')
+        h += [wc.line(), 'upd wc op=replace pix=%s vals=%s' % (
+            ','.join(map(str, pix)), ','.join(rng.choice(['1', '2', '3', '1^1']) for _ in pix))]
         # one continuation on both
         cont = []
+        if (c.is_flt or c.is_int) and rng.random() < 0.4:
+            cont += ['deg x r=dx ord=%d red=wmean w=wc' % rng.randint(max(0, c.covord - 1), c.spord), 'vals dx']
         for _ in range(rng.randint(2, 6)):
             r = rng.random()
             if r < 0.4:
@@ -79,6 +100,16 @@ def histories(rng, tier):
                 cont.append(gen.scalar_op_line(rng, c, inplace=True))
             elif r < 0.8 and c.is_bool:
                 cont.append('inv x inplace=1')
+            elif r < 0.86 and (c.is_flt or c.is_int):
+                # weighted degrade: the weight map is derived from the map itself (same valid set)
+                if rng.random() < 0.5:
+                    cont.append('astype x r=wx dtype=f8')
+                    cont.append('deg x r=dx ord=%d red=wmean w=wx' % rng.randint(max(0, c.covord - 1), c.spord))
+                else:
+                    # the SAME canonical weight map for both twins (valid sets agree while the content is unchanged;
+                    # otherwise both calls are rejected alike)
+                    cont.append('deg x r=dx ord=%d red=wmean w=wc' % rng.randint(max(0, c.covord - 1), c.spord))
+                cont.append('vals dx')
             elif r < 0.9 and c.kind not in ('packed',):
                 o = rng.randint(c.covord, c.spord)
                 red = 'or' if c.kind == 'wide' else rng.choice(['mean', 'max', 'sum'])
@@ -89,7 +120,8 @@ def histories(rng, tier):
                 cont.append('vals dx')
             cont += ['vals x', 'valid x', 'nvalid x', 'covmap x', 'state x']
         h += cont
-        h += [ln.replace(' x ', ' y ', 1).replace('=dx', '=dy').replace(' dx', ' dy') if not ln.endswith(' x')
+        h += [ln.replace(' x ', ' y ', 1).replace('=dx', '=dy').replace(' dx', ' dy').replace('=wx', '=wy')
+              if not ln.endswith(' x')
               else ln[:-1] + 'y' for ln in cont]
         out.append(h)
     return out
